@@ -91,7 +91,14 @@ def history_sweep(tier="quick", seed=0):
         for t, hsh in r["targets"].items():
             evaluations += 1
             distinct.add((key[1], key[2], t))
-            vkey = "after-rejected-design-inside-std.prefix" if "r_prefix" in key[1] else f"{t}|{','.join(key[1])}|seed{key[2]}"
+            # the targets of one job are compiled one after the other in the same interpreter: earlier targets are history too
+            before = list(key[1]) + list(r["targets"])[: list(r["targets"]).index(t)]
+            if "r_prefix" in key[1]:
+                vkey = "after-rejected-design-inside-std.prefix"
+            elif t == "v_base_port" and "v_derived_inst" in before:
+                vkey = "after-a-derived-entity-connected-an-inherited-port-to-an-instance"
+            else:
+                vkey = f"{t}|{','.join(key[1])}|seed{key[2]}"
             if hsh != ref[t] and vkey not in seen_keys and len(violations) < 6:
                 seen_keys.add(vkey)
                 what = f"{t} after history {list(key[1])} under PYTHONHASHSEED={key[2]}: {hsh} instead of {ref[t]}"
